@@ -77,8 +77,14 @@ def softplus_inv(y):
 class RealSpline:
     """Calls the real spline function of a lattice case."""
 
-    def __init__(self, par, dtype="float64"):
+    def __init__(self, par, dtype="float64", variant=0):
+        """variant: which of the parameter pre-images of the same normalised spline is fed -
+        0 the canonical one; 1 / 2 use the invariances of the normalisation (softmax logits shifted by
+        -60 / +60; quadratic knot heights scaled by 1e-2 / 1e3, a uniform height vector as the raw
+        values -150 / -1000 whose softplus underflows)."""
         import torch
+
+        self.variant = variant
 
         self.torch = torch
         self.par = par
@@ -95,20 +101,25 @@ class RealSpline:
 
         kw = {}
         fam = p["fam"]
+        shift = {0: 0.0, 1: -60.0, 2: 60.0}[self.variant]
         if fam == "linear":
-            kw["unnormalized_pdf"] = rows([math.log(v) for v in p["ws"]])
+            kw["unnormalized_pdf"] = rows([math.log(v) + shift for v in p["ws"]])
             return kw
-        kw["unnormalized_widths"] = rows([math.log(v) for v in p["ws"]])
+        kw["unnormalized_widths"] = rows([math.log(v) + shift for v in p["ws"]])
         kw["min_bin_width"] = float(p["mbw"])
         kw["min_bin_height"] = float(p["mbh"])
         if fam == "quadratic":
-            kw["unnormalized_heights"] = rows([softplus_inv(float(h) - 1e-3) for h in p["hq"]])
+            if self.variant and len(set(p["hq"])) == 1:
+                kw["unnormalized_heights"] = rows([{1: -150.0, 2: -1000.0}[self.variant]] * len(p["hq"]))
+            else:
+                lam = {0: 1.0, 1: 1e-2, 2: 1e3}[self.variant]
+                kw["unnormalized_heights"] = rows([softplus_inv(lam * float(h) - 1e-3) if lam * float(h) < 30 else lam * float(h) - 1e-3 for h in p["hq"]])
         elif fam == "cubic":
-            kw["unnormalized_heights"] = rows([math.log(v) for v in p["hs"]])
+            kw["unnormalized_heights"] = rows([math.log(v) - shift for v in p["hs"]])
             kw["unnorm_derivatives_left"] = rows([math.log(float(p["dl"]) / (1 - float(p["dl"])))])
             kw["unnorm_derivatives_right"] = rows([math.log(float(p["dr"]) / (1 - float(p["dr"])))])
         elif fam == "rq":
-            kw["unnormalized_heights"] = rows([math.log(v) for v in p["hs"]])
+            kw["unnormalized_heights"] = rows([math.log(v) - shift for v in p["hs"]])
             ds = p["ds"][1:-1] if p["tails"] else p["ds"]
             kw["unnormalized_derivatives"] = rows([softplus_inv(float(d) - MIN_DERIVATIVE) for d in ds]) if ds else torch.zeros(n, 0, dtype=dt)
             kw["min_derivative"] = MIN_DERIVATIVE
